@@ -81,6 +81,7 @@ func checkC07(R *Run) {
 	R.rule("readpath-shape", "ReadPath, analysed with its root parameter trusted and its path / name parameters tainted, returns a SAFE path: every path item and the file name go through Join(\"/\", …) before the root is prefixed, and the root is the first Join argument")
 	R.rule("sanitiser-control", "control: the same classifier reports TAINTED for Join(root, tainted) and ANCHORED for Join(\"/\", tainted) inside the tree (positive and negative example found in the analysed code on every run)")
 	R.rulePathTaint("path-taint", nil, 70)
+	R.ruleRequesterRoot()
 
 	// readpath-shape
 	if fn := R.mustFn("hotline.ReadPath"); fn != nil {
